@@ -26,8 +26,9 @@ namespace math
 
 \ingroup fcpptmath
 
-The same as #fcppt::math::ceil_div, except in case where dividend
-is negative, dividend / divisor is returned.
+The same as #fcppt::math::ceil_div, but for signed types: Returns the smallest
+integer that is not less than the exact quotient, for every combination of
+signs. In case divisor is 0, nothing is returned.
 
 \tparam T A signed type
 */
@@ -38,15 +39,19 @@ fcppt::optional::object<T> ceil_div_signed(T const &_dividend, T const &_divisor
 
   T const zero{fcppt::literal<T>(0)};
 
-  return (_dividend < zero)
-             ? fcppt::optional::make_if(
-                   _divisor != zero, [_dividend, _divisor] { return _dividend / _divisor; })
-             : fcppt::optional::map(
-                   fcppt::math::ceil_div(
-                       fcppt::cast::to_unsigned(_dividend), fcppt::cast::to_unsigned(_divisor)),
-                   [](std::make_unsigned_t<T> const _result) {
-                     return fcppt::cast::to_signed(_result);
-                   });
+  return fcppt::optional::make_if(_divisor != zero, [_dividend, _divisor, zero] {
+    T const quotient{_dividend / _divisor};
+
+    T const remainder{_dividend % _divisor};
+
+    // Integer division truncates towards zero, which already is the ceiling
+    // unless the exact quotient is positive and not an integer, i.e. the
+    // remainder is non-zero and has the sign of the divisor.
+    return static_cast<T>(
+        (remainder != zero && (remainder < zero) == (_divisor < zero))
+            ? quotient + fcppt::literal<T>(1)
+            : quotient);
+  });
 }
 
 }
